@@ -5,13 +5,19 @@
    Display gives the canonical text and parsing that text gives the value back
    (Properties/C19goals.v, Proofs/GoalRoundtrip.v).  The hypothesis on each leaf is that the
    leaf parser inverts Display on that leaf's text (`leaf_ok`).
-   At the leaf / term level that inversion is PROVED only for integers
-   (C19_integer_roundtrip_terms_partial); for atoms, floats, variables, lists, complex
-   terms, built-ins and infix forms it is the full statement C19_terms_full, which is not
-   yet proved and is evaluated by the correspondence check (print by the real Display, parse
-   by the real parser, compare; model compared with both). *)
+   At the term level the inversion is PROVED (C19_roundtrip_terms, Proofs/TermRoundtrip*.v) for the
+   class `canonical`: atoms [a-z][A-Za-z0-9_]*, 64-bit integers, variables $[A-Za-z][A-Za-z0-9_]*
+   (id 0) and $_, complex terms f(t1, ..., tn) (f not one of join/add/subtract/multiply/divide, text
+   of at most 1000 characters - the limit of validate_complex), lists [t1, ..., tn] and
+   [t1, ..., tn | $V] in the node shape the constructors build; `canonicalb` is an executable test
+   that implies it.  Outside the class the proof work found where printer and parser really
+   disagree (compiled as Examples in Proofs/TermRoundtrip*.v): `[a | $_]` does not parse, a list
+   consisting of a tail variable only prints as `[$T]` and reads back as a one-element list,
+   `add(..)`-named complex terms read back as functions, complex terms longer than 1000 characters
+   are rejected.  Floats, built-in leaf goals and infix forms are not covered by a theorem and are
+   evaluated by the correspondence check (print by the real Display, parse by the real parser). *)
 From Suiron Require Import Model.PResult Model.ParseTerm Model.ParseGoal Model.Tokenizer Model.ParseRule
-  Model.ShowGoal Model.Show Proofs.TokenizerProofs Proofs.GoalRoundtrip Proofs.ParseRoundtrip.
+  Model.ShowGoal Model.Show Proofs.TokenizerProofs Proofs.GoalRoundtrip Proofs.ParseRoundtrip Proofs.ParseTermProofs Proofs.TermRoundtripMain Proofs.TermRoundtripCheck.
 
 Theorem C19_roundtrip_goals : forall (ps : str -> res (presult goal)) g fuel,
   canonical_goal ps g -> (2 * length (text g) + 3 <= fuel)%nat ->
@@ -32,6 +38,16 @@ Theorem C19_partial_integer_terms : forall fuel z,
   parse_term (S fuel) (show_term (TInt z)) = Ok (POk (TInt z)).
 Proof. exact parse_term_show_int. Qed.
 
+Theorem C19_roundtrip_terms : forall t fuel,
+  canonical t -> (parse_fuel (show_term t) <= fuel)%nat ->
+  parse_term fuel (show_term t) = Ok (POk t).
+Proof. exact parse_term_show_canonical. Qed.
+
+Theorem C19_roundtrip_terms_checked : forall t fuel,
+  canonicalb t = true -> (parse_fuel (show_term t) <= fuel)%nat ->
+  parse_term fuel (show_term t) = Ok (POk t).
+Proof. exact canonicalb_roundtrip. Qed.
+
 Check C19_roundtrip_goals : forall (ps : str -> res (presult goal)) g fuel,
   canonical_goal ps g -> (2 * length (text g) + 3 <= fuel)%nat ->
   show_goal g = Ok (text g) /\ generate_goal ps fuel (text g) = Ok (POk g).
@@ -40,3 +56,5 @@ Print Assumptions C19_roundtrip_goals.
 Print Assumptions C19_roundtrip_rules.
 Print Assumptions C19_neutral_criterion.
 Print Assumptions C19_partial_integer_terms.
+Print Assumptions C19_roundtrip_terms.
+Print Assumptions C19_roundtrip_terms_checked.
